@@ -24,10 +24,13 @@ type Peer struct {
 
 // NewPeer instantiates a Peer.
 func NewPeer(pubKeyHex, netAddr, moniker string) *Peer {
+	// Peers travel as JSON (events, blocks, the socket proxy), where bytes that are
+	// not valid UTF-8 become U+FFFD. Normalise here so that the local copy is the
+	// same value as the one every other component receives.
 	peer := &Peer{
 		PubKeyHex: pubKeyHex,
-		NetAddr:   netAddr,
-		Moniker:   moniker,
+		NetAddr:   strings.ToValidUTF8(netAddr, "\uFFFD"),
+		Moniker:   strings.ToValidUTF8(moniker, "\uFFFD"),
 	}
 	return peer
 }
